@@ -257,14 +257,27 @@ def bfs_shard(rec, table, types, first, depth):
     step, inv, enabled, build = (pt_step, pt_invariant, pt_enabled, pt_build) if table == 'PairTable' else (vt_step, vt_invariant, vt_enabled, vt_build)
     T, model = build(types, [])
     hist = []
+    probs = None
     for op in first:
         if not enabled(model, types, op):
             return
-        model = step(T, model, types, op)
         hist.append(op)
+        try:
+            model = step(T, model, types, op)
+        except HarnessError:
+            raise
+        except Exception as e:
+            probs = [('raises', '%r raised %s: %s' % (op, type(e).__name__, str(e)[:80]))]
+            break
     # the shard owns the transition into its start state
     rec.trans()
-    probs = inv(T, model, types)
+    if probs is None:
+        try:
+            probs = inv(T, model, types)
+        except HarnessError:
+            raise
+        except Exception as e:
+            probs = [('raises', 'reading the table after %r raised %s: %s' % (hist, type(e).__name__, str(e)[:80]))]
     if probs:
         report(rec, table, types, hist, probs)
         return
